@@ -5165,8 +5165,10 @@ py_statements = [
 Py_INCREF({c_var_obj});
 return {c_var_obj};
 -}}
-PyObject * rv = PyString_FromString({c_var});
-// XXX assumes is null terminated
+// The member may be filled completely, without a terminator.
+Py_ssize_t rvlen = 0;
+while (rvlen < {npy_intp_size} && {c_var}[rvlen] != '\\0') rvlen++;
+PyObject * rv = PyString_FromStringAndSize({c_var}, rvlen);
 return rv;"""],
     ),
     
